@@ -136,7 +136,8 @@ Section Species.
       SpInv lo dl h W recs -> lo <= List.length h -> SpOld a oc ->
       exists W2 s1,
         let h2 := copy_species T kt attrs m' dl h (Ref a) in
-        SpInv lo dl h2 W2 (recs ++ [(a, List.length h, s1)]) /\ Tr [dl] h W h2 W2.
+        SpInv lo dl h2 W2 (recs ++ [(a, List.length h, s1)]) /\ Tr [dl] h W h2 W2 /\
+        List.length h < s1 < List.length h2.
   Proof.
     intros lo dl h W recs a oc [HS [Hdl [Hdllo [Hgdl Hrecs]]]] Hlo [Hga Hok Hmodel Hlk].
     pose proof (get_lt _ _ _ Hga) as Han.
@@ -163,7 +164,8 @@ Section Species.
     assert (Tr [dl] h W h3 W1) as HTall.
     { pose proof (tr_trans _ _ _ _ _ _ _ _ HT1 HT23) as H. cbn [app] in H.
       destruct H as [L A N S]. split; auto. intros x Hx Hnot. apply S; auto. intros [<-|[<-|[]]]; [unfold a1 in Hx; lia|apply Hnot; left; reflexivity]. }
-    split; [|exact HTall].
+    split; [|split; [exact HTall|]].
+    2:{ split; [unfold a1 in Hs1lo; lia|]. apply (st_W _ _ _ _ HS3). exact Hs1W. }
     split; [exact HS3|]. split; [exact Hdl1|]. split; [exact Hdllo|]. split.
     - (* the DictList *)
       unfold h3. assert (get h2 dl = Some (mkCell KDictList (dl_items (map r_new recs)))) as Hg2.
@@ -198,35 +200,37 @@ Section Species.
           -- intros [Heq|[Heq|[]]]; congruence.
   Qed.
 
+  Definition cells3 (r : rec3) : list addr := [r_new r; r_set r].
+
   Lemma species_loop_desc : forall lo dl (L : list addr) h W recs,
       SpInv lo dl h W recs -> lo <= List.length h ->
       (forall a, In a L -> exists oc, SpOld a oc) ->
       exists W2 recs2,
         let h2 := fold_left (copy_species T kt attrs m' dl) (map Ref L) h in
         SpInv lo dl h2 W2 (recs ++ recs2) /\ map r_old recs2 = L /\ Tr [dl] h W h2 W2 /\
-        NoDup (map r_new recs2) /\ (forall r, In r recs2 -> List.length h <= r_new r).
+        NoDup (flat_map cells3 recs2) /\
+        (forall r x, In r recs2 -> In x (cells3 r) -> List.length h <= x < List.length h2).
   Proof.
     intros lo dl L. induction L as [|a L IH]; intros h W recs HI Hlo HL.
     - exists W, []. cbn. rewrite app_nil_r. split; auto. split; auto. split.
       + eapply tr_weaken; [apply tr_refl|]. intros x [].
-      + split; [constructor|intros r []].
+      + split; [constructor|intros r x []].
     - destruct (HL a (or_introl eq_refl)) as [oc Hoc].
-      destruct (copy_species_desc lo dl h W recs a oc HI Hlo Hoc) as [W1 [s1 [HI1 HT1]]]. cbv zeta in HI1, HT1.
+      destruct (copy_species_desc lo dl h W recs a oc HI Hlo Hoc) as [W1 [s1 [HI1 [HT1 Hs1]]]]. cbv zeta in HI1, HT1, Hs1.
       set (h1 := copy_species T kt attrs m' dl h (Ref a)) in *.
       assert (lo <= List.length h1) as Hlo1 by (pose proof (tr_len _ _ _ _ _ HT1); lia).
-      destruct (IH h1 W1 _ HI1 Hlo1 (fun x Hx => HL x (or_intror Hx))) as [W2 [recs2 [HI2 [Hold [HT2 [Hnd Hge]]]]]].
-      cbv zeta in HI2, HT2. exists W2, ((a, List.length h, s1) :: recs2). cbn [map fold_left]. cbv zeta.
+      destruct (IH h1 W1 _ HI1 Hlo1 (fun x Hx => HL x (or_intror Hx))) as [W2 [recs2 [HI2 [Hold [HT2 [Hnd Hrng]]]]]].
+      cbv zeta in HI2, HT2, Hrng. exists W2, ((a, List.length h, s1) :: recs2). cbn [map fold_left]. cbv zeta.
       rewrite <- app_assoc in HI2. cbn [app] in HI2. split; [exact HI2|]. split; [cbn; f_equal; exact Hold|]. split.
       + pose proof (tr_trans _ _ _ _ _ _ _ _ HT1 HT2) as H. eapply tr_weaken; [exact H|].
         intros x Hx. apply in_app_or in Hx as [Hx|Hx]; exact Hx.
-      + assert (List.length h < List.length h1) as Hl1.
-        { destruct HI1 as [HS1 [_ [_ [_ Hr1]]]].
-          assert (In (a, List.length h, s1) (recs ++ [(a, List.length h, s1)])) as Hin1 by (apply in_or_app; right; left; reflexivity).
-          destruct (Hr1 _ Hin1) as [[Hw _] _].
-          apply (st_W _ _ _ _ HS1) in Hw. unfold r_new in Hw. cbn [fst snd] in Hw. lia. }
-        split.
-        * cbn [map]. constructor; auto. intro Hin. apply in_map_iff in Hin as [r [Hr Hin]]. apply Hge in Hin.
-          unfold r_new at 2 in Hr. cbn [fst snd] in Hr. lia.
-        * intros r [<-|Hr]; [unfold r_new; cbn; lia|]. apply Hge in Hr. lia.
+      + pose proof (tr_len _ _ _ _ _ HT2) as Hl2. fold h1. split.
+        * cbn [flat_map cells3 app]. unfold r_new at 1, r_set at 1. cbn [fst snd].
+          constructor; [|constructor; auto].
+          -- intros [Heq|Hin]; [lia|]. apply in_flat_map in Hin as [r [Hr Hx]]. pose proof (Hrng r _ Hr Hx). lia.
+          -- intro Hin. apply in_flat_map in Hin as [r [Hr Hx]]. pose proof (Hrng r _ Hr Hx). lia.
+        * intros r x [<-|Hr] Hx.
+          -- unfold cells3, r_new, r_set in Hx. cbn [fst snd] in Hx. destruct Hx as [<-|[<-|[]]]; lia.
+          -- pose proof (Hrng r x Hr Hx). lia.
   Qed.
 End Species.
